@@ -111,7 +111,7 @@ SPELL = [
         r"\1 \2 = topo_get_cpubind_mask_cached_in_static(\3);", None),
     Sub(r"pika::error::(\w+)", r"pika_error_\1", None),
     Sub(r"threads::detail::mask_type\b", "struct mask", None),
-    Sub(r"threads::detail::(bit_and|count|any)\(", r"mask_\1(", None),
+    Sub(r"threads::detail::(bit_and|count|any|mask_size)\(", r"mask_\1(", None),
     Sub(r"threads::detail::hardware_concurrency\(\)", "vx_hardware_concurrency()", None),
     Sub(r"\(std::(min|max)\)", lambda m: "VX_" + m.group(1).upper(), None),
     Sub(r"\bstd::size_t\((\w+)\)", r"((size_t)(\1))", None),
